@@ -753,6 +753,34 @@ impl CertificateRetriever for StoreRetriever {
     }
 }
 
+/// The real cache behind a lookup budget: a verifier that walks a cycle of cached links never asks the provider, so
+/// the provider's budget cannot end such a walk; the cache's can (the walk then fails, which is "not accepted").
+struct BudgetCache {
+    inner: MemoryCertificateVerifierCache,
+    lookups: Mutex<usize>,
+    budget: usize,
+}
+
+#[async_trait]
+impl CertificateVerifierCache for BudgetCache {
+    async fn store_validated_certificate(&self, certificate_hash: &str, previous_certificate_hash: &str) -> MithrilResult<()> {
+        self.inner.store_validated_certificate(certificate_hash, previous_certificate_hash).await
+    }
+    async fn get_previous_hash(&self, certificate_hash: &str) -> MithrilResult<Option<String>> {
+        {
+            let mut g = self.lookups.lock().unwrap();
+            *g += 1;
+            if *g > self.budget {
+                return Err(anyhow::anyhow!("cache lookup budget exhausted (loop)"));
+            }
+        }
+        self.inner.get_previous_hash(certificate_hash).await
+    }
+    async fn reset(&self) -> MithrilResult<()> {
+        self.inner.reset().await
+    }
+}
+
 struct StoreRequester {
     served: Mutex<BTreeMap<String, MithrilCertificate>>,
     log: Mutex<(usize, Vec<String>)>,
@@ -995,8 +1023,8 @@ fn hist_case(c: &HistCase, known: &[String]) -> Report {
     let cx = Ctx { built: &built, adv, adv_spec: &c.adv };
     let gv = &built.genesis_verifier;
     let n = built.certs.len();
-    let cache = Arc::new(MemoryCertificateVerifierCache::new(chrono::TimeDelta::try_hours(24).expect("delta")));
-    let requester = Arc::new(StoreRequester { served: Mutex::new(BTreeMap::new()), log: Mutex::new((0, vec![])), budget: usize::MAX });
+    let cache = Arc::new(BudgetCache { inner: MemoryCertificateVerifierCache::new(chrono::TimeDelta::try_hours(24).expect("delta")), lookups: Mutex::new(0), budget: 8 * n + 64 });
+    let requester = Arc::new(StoreRequester { served: Mutex::new(BTreeMap::new()), log: Mutex::new((0, vec![])), budget: 8 * n + 64 });
     let rt = tokio::runtime::Builder::new_current_thread().enable_all().build().expect("runtime");
     let verifier = match ClientCertificateVerifier::new(requester.clone(), &genesis_vk_hex(gv), FeedbackSender::new(&[]), Some(cache.clone() as Arc<dyn CertificateVerifierCache>), logger()) {
         Ok(v) => v,
@@ -1034,7 +1062,8 @@ fn hist_case(c: &HistCase, known: &[String]) -> Report {
             g.0 = 0;
             g.1.clear();
         }
-        let cached_before = rt.block_on(cache.len());
+        *cache.lookups.lock().unwrap() = 0;
+        let cached_before = rt.block_on(cache.inner.len());
         let r = catch(|| rt.block_on(client.verify_chain(&key)).map(|_| ()));
         let asked = requester.log.lock().unwrap().1.len();
         let (acc, err) = match r {
@@ -1044,7 +1073,10 @@ fn hist_case(c: &HistCase, known: &[String]) -> Report {
         };
         let (fails, first_in_head_segment) = ref_check_at(&head, &universe, gv);
         // the walk was shortened by the cache iff fewer certificates were fetched than the reference walk is long
-        let cached_after = rt.block_on(cache.len());
+        let cached_after = rt.block_on(cache.inner.len());
+        if *cache.lookups.lock().unwrap() > cache.budget {
+            rep.label("history:cache-lookup-budget-exhausted");
+        }
         if acc && cached_before > 0 {
             rep.label("history:accept-with-warm-cache");
         }
